@@ -83,6 +83,11 @@ NOTIFY_SIG = {"list": ["index", "removed", "added"],
 
 # provenance labels
 V, R, OPRE, OPOST, MRES, C, NS = "V", "R", "OPRE", "OPOST", "MRES", "C", "NS"
+# membership-relevant validator output (set items, dict keys): membership in
+# the pre-state unknown / known absent / known present; ODIFF = post-state
+# minus a pre-state snapshot
+VMQ, VMN, VMP, ODIFF = "VM?", "VM-", "VM+", "ODIFF"
+MEMBER_VALIDATOR = {"set": "item_validator", "dict": "key_validator"}
 # phases
 PRE, POST, DONE = "pre", "post", "notified"
 
@@ -160,6 +165,7 @@ class MutatorFlow(PyFlow):
         self.selfname = self.params[0] if self.params else "self"
         self.mutations = []     # (mutator name, node line)
         self.mutation_calls = []
+        self.mutation_mem = {}  # id(call) -> membership decisions per path
         self.notifies = []      # cfg node ids containing a notify call
         self.validations = 0
         self.checked_args = 0
@@ -267,10 +273,16 @@ class MutatorFlow(PyFlow):
                 out |= P(x)
             return out
         if isinstance(e, ast.Compare):
+            mt = self.membership_test(e, phase)
+            if mt:
+                return frozenset([("IN:" if mt[1] else "NIN:") + mt[0]])
             return frozenset([C])
         if isinstance(e, ast.UnaryOp):
             return frozenset([C]) if isinstance(e.op, ast.Not) else P(e.operand)
         if isinstance(e, ast.BinOp):
+            if isinstance(e.op, ast.Sub) and OPRE in P(e.right) \
+                    and VMQ in P(e.left):
+                return (P(e.left) - {VMQ}) | {VMN}
             return P(e.left) | P(e.right)
         if isinstance(e, ast.Subscript):
             return P(e.value)
@@ -287,7 +299,12 @@ class MutatorFlow(PyFlow):
             if isinstance(f, ast.Attribute) \
                     and is_self_attr(f, None, self.selfname):
                 if f.attr in VALIDATORS:
+                    if MEMBER_VALIDATOR.get(self.kind) == f.attr:
+                        return frozenset([VMQ])
                     return frozenset([V])
+                if f.attr == "difference" and phase != PRE and any(
+                        OPRE in P(a) for a in e.args):
+                    return frozenset([ODIFF])
                 if f.attr in SELF_READS or self.kind_has(f.attr):
                     return self.own(phase)
                 out = self.own(phase)
@@ -307,6 +324,10 @@ class MutatorFlow(PyFlow):
                 return out or frozenset([C])
             if isinstance(f, ast.Attribute):
                 recv = P(f.value)
+                if f.attr in ("difference", "intersection") and any(
+                        OPRE in P(a) for a in e.args) and VMQ in recv:
+                    return (recv - {VMQ}) | {
+                        VMN if f.attr == "difference" else VMP}
                 if f.attr in ("difference", "intersection", "copy", "items",
                               "values", "keys", "__getitem__", "get"):
                     return recv
@@ -322,6 +343,43 @@ class MutatorFlow(PyFlow):
             if isinstance(ch, ast.expr):
                 out |= P(ch)
         return out or frozenset([C])
+
+    def membership_test(self, e, phase):
+        """(name, positive) when ``e`` is `<name> in self` / `not in self`
+        evaluated against the pre-state"""
+        if phase == PRE and isinstance(e, ast.Compare) and len(e.ops) == 1 \
+                and isinstance(e.ops[0], (ast.In, ast.NotIn)) \
+                and isinstance(e.left, ast.Name) \
+                and isinstance(e.comparators[0], ast.Name) \
+                and e.comparators[0].id == self.selfname:
+            return e.left.id, isinstance(e.ops[0], ast.In)
+        return None
+
+    def refine_membership(self, test, truth, state):
+        """relabel a validated value once a pre-state membership test on it
+        has been decided"""
+        while isinstance(test, ast.UnaryOp) and isinstance(test.op, ast.Not):
+            test, truth = test.operand, not truth
+        env = self.env_of(state)
+        name = present = None
+        mt = self.membership_test(test, state[0])
+        if mt:
+            name, present = mt[0], (mt[1] == truth)
+        elif isinstance(test, ast.Name):
+            for lab in env.get(test.id, ()):
+                if isinstance(lab, str) and lab.startswith(("IN:", "NIN:")):
+                    name = lab.split(":", 1)[1]
+                    present = lab.startswith("IN:") == truth
+        if name is not None and env.get(name) == frozenset([R]):
+            # raw parameter: remember the decision for preconditions of
+            # emulated operations (setdefault)
+            env["#mem:" + name] = frozenset(["present" if present
+                                             else "absent"])
+            return self.mk(state[0], env)
+        if name is None or VMQ not in env.get(name, ()):
+            return state
+        env[name] = (env[name] - {VMQ}) | {VMP if present else VMN}
+        return self.mk(state[0], env)
 
     def kind_has(self, name):
         return name in NON_MUTATORS[self.kind] and not name.startswith("__")
@@ -360,11 +418,32 @@ class MutatorFlow(PyFlow):
             m, args, kws = self.builtin_mutation(e)
             self.mutations.append((m, getattr(e, "lineno", 0)))
             self.mutation_calls.append((m, list(args), list(kws), e, phase))
+            self.mutation_mem.setdefault(id(e), []).append(frozenset(
+                (k[5:], next(iter(v))) for k, v in env.items()
+                if k.startswith("#mem:")))
             if phase != PRE:
                 self.flag(("second-mutation", m),
                           f"a second underlying mutation `{norm(e)[:60]}` on "
                           f"one path: a single operation must map to a "
                           f"single built-in operation")
+            if m != "__init__":
+                for a in list(args) + [k.value for k in kws]:
+                    lazy = [g for g in ast.walk(a) if isinstance(
+                        g, ast.GeneratorExp) or (
+                        isinstance(g, ast.Call) and isinstance(g.func, ast.Name)
+                        and g.func.id in ("map", "filter"))]
+                    for g in lazy:
+                        if any(isinstance(n, ast.Attribute)
+                               and is_self_attr(n, None, self.selfname)
+                               and n.attr in VALIDATORS for n in ast.walk(g)):
+                            self.flag(("validate-first", "lazy:" + m),
+                                      f"`{norm(g)[:70]}` is evaluated lazily "
+                                      f"*inside* the underlying "
+                                      f"{self.kind}.{m}: validation is "
+                                      f"interleaved with the mutation, so a "
+                                      f"rejected item leaves the earlier "
+                                      f"ones already stored (and nobody is "
+                                      f"notified)")
             spec = ELEMENT_ARGS[self.kind].get(m)
             if spec is not None:
                 if spec == "*":
@@ -439,12 +518,31 @@ class MutatorFlow(PyFlow):
                               f"`added` argument `{norm(a)}` of notify() "
                               f"derives from {sorted(bad)} (must be validator "
                               f"output or a post-mutation read)")
+                stale = lab & {VMQ, VMP}
+                if self.kind == "set":
+                    stale |= lab & {OPOST}
+                if stale and self.kind in MEMBER_VALIDATOR:
+                    what = "items" if self.kind == "set" else "keys"
+                    self.flag(("delta-args", "added-membership", norm(a)),
+                              f"`added` argument `{norm(a)}` of notify() can "
+                              f"contain {what} that were already present "
+                              f"before the operation (labels "
+                              f"{sorted(map(str, stale))}): validated "
+                              f"{what} must be filtered against the "
+                              f"pre-state (`.difference(self)` / `not in "
+                              f"self`) - a transforming validator can map a "
+                              f"new value onto an existing member")
             elif role == "removed":
                 if OPOST in lab:
                     self.flag(("delta-args", "removed", norm(a)),
                               f"`removed` argument `{norm(a)}` of notify() is "
                               f"read from the container after the mutation")
             elif role == "changed":
+                if lab & {VMQ, VMN} and self.kind == "dict":
+                    self.flag(("delta-args", "changed-membership", norm(a)),
+                              f"`changed` argument `{norm(a)}` of notify() "
+                              f"can contain keys that were not present "
+                              f"before the operation")
                 bad = lab & {R, NS, OPOST}
                 if bad:
                     self.flag(("delta-args", "changed", norm(a)),
@@ -469,6 +567,7 @@ class MutatorFlow(PyFlow):
         return super().transfer(node, state)
 
     def assume(self, test, truth, state):
+        state = self.refine_membership(test, truth, state)
         # isinstance(<param>, (set, frozenset)) is False: operand is not a set
         if not truth and isinstance(test, ast.Call) \
                 and isinstance(test.func, ast.Name) \
@@ -609,7 +708,8 @@ def delta_rule(kind):
                               "mutator override never calls notify()")
                 continue
             hits = _emit(res, fl, {"notify-before-mutation", "notify-twice",
-                                   "notify-order", "delta-args"}, "")
+                                   "notify-order", "delta-args",
+                                   "validate-first"}, "")
             res.oblige(not [h for h in hits if h[0][0] != "delta-args"],
                        fl.qualname + ":order", "", "") if not hits else None
             # paths that mutate and return without notifying: allowed only
@@ -1346,6 +1446,22 @@ def refine_rule(kind):
                            f"{kind}.{name} where {kind}.{want} is overridden: "
                            f"results, exceptions and edge cases of the "
                            f"built-in {want} are no longer inherited")
+                if (kind, m) in DIFFERENT_OP and name == want:
+                    # the emulated operation acts only when the caller's key
+                    # is absent: every path to the store has decided
+                    # `<key> in self` false
+                    keyp = params[0]
+                    mems = fl.mutation_mem.get(id(call), [])
+                    res.oblige(bool(mems) and all(
+                        (keyp, "absent") in f for f in mems),
+                        f"{fl.qualname}:precondition:absent",
+                        fl.module.loc(call),
+                        f"{fl.qualname} reaches the underlying "
+                        f"{kind}.{name} on a path that has not decided "
+                        f"`{keyp} in self` to be false: built-in "
+                        f"{kind}.{m} leaves a present key alone whatever "
+                        f"its value (a key holding None / a falsy value "
+                        f"would be overwritten and announced as changed)")
                 if name != want or (kind, m) in DIFFERENT_OP:
                     continue
                 # positional pass-through of the non-element arguments
